@@ -130,6 +130,17 @@ pub fn cmd_writer(out: &str, seed: u64, thorough: bool) {
                 fasta::write_head(&mut o, head).unwrap();
                 fasta::write_seq_iter(&mut o, c.iter().map(|x| &x[..])).unwrap();
                 iters.push(format!("{{\"chunks\":{},\"out\":{}}}", jchunks(c), jb(&o)));
+                // the same chunks through iterators that do not know their length (size hints (1, Some(n)) and (0, Some(n)))
+                if !c.is_empty() {
+                    let mut o = vec![];
+                    fasta::write_head(&mut o, head).unwrap();
+                    fasta::write_seq_iter(&mut o, std::iter::once(&c[0][..]).chain(c[1..].iter().map(|x| &x[..]).filter(|_| true))).unwrap();
+                    iters.push(format!("{{\"chunks\":{},\"out\":{}}}", jchunks(c), jb(&o)));
+                }
+                let mut o = vec![];
+                fasta::write_head(&mut o, head).unwrap();
+                fasta::write_seq_iter(&mut o, c.iter().map(|x| &x[..]).filter(|_| true)).unwrap();
+                iters.push(format!("{{\"chunks\":{},\"out\":{}}}", jchunks(c), jb(&o)));
             }
             let mut wraps = vec![];
             // also widths at and just above the sequence length, and near usize::MAX ("do not wrap"); logged clamped to 2^31-1
@@ -154,6 +165,16 @@ pub fn cmd_writer(out: &str, seed: u64, thorough: bool) {
                     let mut o = vec![];
                     fasta::write_head(&mut o, head).unwrap();
                     fasta::write_wrap_seq_iter(&mut o, c.iter().map(|x| &x[..]), w).unwrap();
+                    wi.push(format!("{{\"chunks\":{},\"out\":{}}}", jchunks(c), jb(&o)));
+                    if !c.is_empty() {
+                        let mut o = vec![];
+                        fasta::write_head(&mut o, head).unwrap();
+                        fasta::write_wrap_seq_iter(&mut o, std::iter::once(&c[0][..]).chain(c[1..].iter().map(|x| &x[..]).filter(|_| true)), w).unwrap();
+                        wi.push(format!("{{\"chunks\":{},\"out\":{}}}", jchunks(c), jb(&o)));
+                    }
+                    let mut o = vec![];
+                    fasta::write_head(&mut o, head).unwrap();
+                    fasta::write_wrap_seq_iter(&mut o, c.iter().map(|x| &x[..]).filter(|_| true), w).unwrap();
                     wi.push(format!("{{\"chunks\":{},\"out\":{}}}", jchunks(c), jb(&o)));
                 }
                 let mut sk = ShortSink(vec![]);
@@ -310,8 +331,8 @@ pub fn cmd_iters(out: &str, seed: u64, thorough: bool) {
     let mut n = 0usize;
     let maxn = if thorough { 5 } else { 4 };
     for nl in 0..=maxn {
-        for variant in 0..3 {
-            // a record with nl sequence lines (variant: LF / CRLF / no final terminator + an empty line)
+        for variant in 0..4 {
+            // a record with nl sequence lines (variant: LF / CRLF / no final terminator + an empty line / lines that start with ';' or '>'-free punctuation)
             let mut x = b">h d".to_vec();
             let eol: &[u8] = if variant == 1 { b"\r\n" } else { b"\n" };
             x.extend(eol);
@@ -319,6 +340,12 @@ pub fn cmd_iters(out: &str, seed: u64, thorough: bool) {
                 if variant == 2 && i == 1 {
                     // an empty line inside the sequence
                 } else {
+                    if variant == 3 && i % 2 == 1 {
+                        x.push(b';');
+                    }
+                    if variant == 3 && i == 2 {
+                        x.push(b'#');
+                    }
                     for k in 0..=(i % 3) {
                         x.push(b'A' + (i as u8) + k as u8);
                     }
